@@ -144,7 +144,7 @@ def prepare_ops(spec, dev, tmp):
             dev.shell_scripts[key] = chunks
             a['cmd'] = cmd
         elif api == 'stat':
-            path = op.get('path', '/f%d' % i)
+            path = op.get('path', '/f%d' % i) + ('.%d' % i if 'st' in op else '')
             if 'st' in op:
                 if not hasattr(dev.fs, 'stat_override'):
                     dev.fs.stat_override = {}
@@ -505,4 +505,80 @@ def run_corpus(specs, modes=('sync', 'async'), syms=False):
         mode = modes[(i * 7 + i // 2) % len(modes)]      # decorrelated from every other alternation in the generators
         rr = run(spec, mode)
         out.append((mode, spec, rr, project_events(rr, spec, syms=syms)))
+    return out
+
+
+# ------------------------------------------------------------------ FileSync traces for TraceSync (C07-C10)
+def sync_traces(rr, spec, inert=None, only=None):
+    """One trace per FileSync op of the session (events call / prx / ptx / cbk / ret|exc)."""
+    out = []
+    base = 1 if spec.get('connect', True) else 0
+    clks = {}
+    cur_i = None
+    for e in rr.events:
+        if e['ev'] == 'call':
+            cur_i = (e.get('info') or {}).get('i')
+            clks[cur_i] = [e.get('clk', 0), None]
+        elif e['ev'] in ('ret', 'exc') and cur_i in clks:
+            clks[cur_i][1] = e.get('clk', 0)
+    for i, op in enumerate(spec['ops']):
+        api = op['api']
+        if api not in ('push', 'pull', 'list', 'stat') or (only and api not in only):
+            continue
+        o = rr.outcomes[base + i]
+        a = rr.args[i]
+        streams = [st for st in rr.dev.all_streams if getattr(st, 'op', None) == i and st.dest.rstrip(b'\0') == b'sync:']
+        size = len(a['data']) if api == 'push' else (op.get('size') or 0) if api == 'pull' else 0
+        tr = [dict(ev='call', api=api, size=size, cb=bool(op.get('cb')), nfiles=1)]
+        for st in streams:
+            svc = st.service
+            off = 0
+            for r in svc.records:
+                if api != 'push':
+                    continue
+                if r['id'] == 'SEND':
+                    want = ('%s,%d' % (a['dpath'], op.get('st_mode', 33272))).encode('utf8')
+                    tr.append(dict(ev='prx', id='SEND', specOk=(r['data'] == want)))
+                    off = 0
+                elif r['id'] == 'DATA':
+                    n = len(r['data'])
+                    tr.append(dict(ev='prx', id='DATA', n=n, off=off, match=(r['data'] == a['data'][off:off + n] and r['arg'] == n)))
+                    off += n
+                elif r['id'] == 'DONE':
+                    mt = op.get('mtime', 0)
+                    c0, c1 = clks.get(i, [0, 0])
+                    ok = (r['arg'] == mt) if mt else (c0 <= r['arg'] <= (c1 if c1 is not None else c0))
+                    tr.append(dict(ev='prx', id='DONE', fsize=len(a['data']), mtimeOk=bool(ok)))
+                else:
+                    tr.append(dict(ev='prx', id=r['id']))
+            for w in svc.out:
+                tr.append(dict(ev='ptx', id=w['id'], bad=(w['id'] not in ('OKAY', 'FAIL', 'DATA', 'DONE', 'DENT', 'STAT'))))
+        for (path, n, total) in rr.extra.get('cb', {}).get(i, []):
+            tr.append(dict(ev='cbk', n=n, total=total))
+        # bad ids are those not valid at that point of the exchange: mark via the plan
+        plan = op.get('plan') or {}
+        if plan.get('bad_id'):
+            for e in tr:
+                if e['ev'] == 'ptx' and e['id'] == plan['bad_id']:
+                    e['bad'] = True
+        ok_inert = True if inert is None else bool(inert.get(i, True))
+        if o.kind == 'ret':
+            f = dict(ev='ret', api=api, inert=ok_inert)
+            if api == 'pull':
+                got = rr.extra.get('pulled', {}).get(i)
+                want = rr.dev.fs.files.get(a['path'], {}).get('data', b'')
+                f.update(wrote=len(got) if got is not None else -1, match=(got == want))
+            elif api == 'list':
+                f.update(entries=[[bytes(x[0]).hex(), wire.limbs(x[1]), wire.limbs(x[2]), wire.limbs(x[3])] for x in o.value],
+                         expected=[[bytes.fromhex(n).hex() if isinstance(n, str) else bytes(n).hex(), wire.limbs(m), wire.limbs(sz), wire.limbs(t)] for (n, m, sz, t) in op.get('entries', [])])
+            elif api == 'stat':
+                f.update(entries=[wire.limbs(x) for x in o.value], expected=[wire.limbs(x) for x in op.get('st', [0, 0, 0])])
+            tr.append(f)
+        else:
+            reason = plan.get('reason', '')
+            rb = reason.encode('latin1')
+            forms = [reason, rb.decode('utf8', 'backslashreplace'), repr(rb)[2:-1], rb.decode('utf8', 'replace')]
+            tr.append(dict(ev='exc', api=api, cls=o.exc_name, reasonIn=any(f in str(o.exc) for f in forms) if reason else True,
+                           healthy=not plan and not spec.get('faulty') and not isinstance(op.get('dest'), list)))
+        out.append((i, tr))
     return out
